@@ -548,4 +548,62 @@ def stridedEnd (first last step : Nat) : Nat := if first < last then (last - fir
 /-- the value passed to `f` for iteration `i` of the blocked_range: `k = my_begin + i * my_step` -/
 def stridedIndex (first step i : Nat) : Nat := first + i * step
 
+/-! ### the index form for the fixed-width `Index` types (specification side)
+
+The C++ expressions themselves are regenerated from `parallel_for.h` for every Index type into
+`Generated/C05Stride.lean` (signed values are `Int`, unsigned values are `Nat`); the predicates below say what they have
+to compute.  `half = 2^(bits-1)` for a signed type, `top = 2^bits` for an unsigned one. -/
+
+/-- admissible arguments of `parallel_for(first, last, step, f)` for a signed Index type: representable values, a
+non-empty iteration space whose extent `last - first` is representable in Index, a positive step -/
+structure StrideArgsS (half first last step : Int) : Prop where
+  lo  : -half ≤ first
+  hi  : last < half
+  lt  : first < last
+  ext : last - first < half
+  sp  : 0 < step
+  sh  : step < half
+
+/-- admissible arguments for an unsigned Index type (every extent is representable) -/
+structure StrideArgsU (top first last step : Nat) : Prop where
+  hi : last < top
+  lt : first < last
+  sp : 0 < step
+  sh : step < top
+
+/-- `cnt` is the exact trip count `⌈(last - first) / step⌉` (as a mathematical integer), and it is representable -/
+def CountExactS (half : Int) (cnt : Int → Int → Int → Int) : Prop :=
+  ∀ first last step, StrideArgsS half first last step →
+    0 < cnt first last step ∧ cnt first last step < half ∧
+    (cnt first last step - 1) * step < last - first ∧ last - first ≤ cnt first last step * step
+
+def CountExactU (top : Nat) (cnt : Nat → Nat → Nat → Nat) : Prop :=
+  ∀ first last step, StrideArgsU top first last step →
+    0 < cnt first last step ∧ cnt first last step < top ∧
+    (cnt first last step - 1) * step < last - first ∧ last - first ≤ cnt first last step * step
+
+/-- the guards: `bad step` ⇔ the step is not positive (the call throws), `run first last` ⇔ the loop is not empty -/
+def GuardsExactS (half : Int) (bad : Int → Bool) (run : Int → Int → Bool) : Prop :=
+  ∀ first last step, -half ≤ first → first < half → -half ≤ last → last < half → -half ≤ step → step < half →
+    bad step = decide (step ≤ 0) ∧ run first last = decide (first < last)
+
+def GuardsExactU (top : Nat) (bad : Nat → Bool) (run : Nat → Nat → Bool) : Prop :=
+  ∀ first last step, first < top → last < top → step < top →
+    bad step = decide (step = 0) ∧ run first last = decide (first < last)
+
+/-- value of `k` in the body wrapper at the `j`-th iteration of a chunk: `k = k0; … ; k += ms` (`j` times) -/
+def chunkVal {α : Type} (next : α → α → α) (ms : α) (k0 : α) : Nat → α
+  | 0 => k0
+  | j + 1 => next (chunkVal next ms k0 j) ms
+
+/-- the body wrapper, run on a chunk that starts at iteration `b` of the blocked_range `[0, cnt)`, passes
+`first + (b + j) * step` to the functor at its `j`-th iteration, for every iteration `b + j < cnt` (no wrap-around) -/
+def IndexExactS (half : Int) (cnt : Int → Int → Int → Int) (idx0 : Int → Int → Int → Int) (next : Int → Int → Int) : Prop :=
+  ∀ first last step, StrideArgsS half first last step → ∀ (b : Int) (j : Nat), 0 ≤ b → b + j < cnt first last step →
+    chunkVal next step (idx0 first step b) j = first + (b + j) * step
+
+def IndexExactU (top : Nat) (cnt : Nat → Nat → Nat → Nat) (idx0 : Nat → Nat → Nat → Nat) (next : Nat → Nat → Nat) : Prop :=
+  ∀ first last step, StrideArgsU top first last step → ∀ (b j : Nat), b + j < cnt first last step →
+    chunkVal next step (idx0 first step b) j = first + (b + j) * step
+
 end TbbVerif.C05
